@@ -134,7 +134,8 @@ theorem C13_roundtrip_vectors (C : Codec K) (hC : C.LawfulOn R) (hD : C.DegLawfu
   · simp [Except.map, mirrorClusterIf, mirrorCluster_mirrorCluster C hC]
 
 /-- a `<coordinates>` cluster: ids, x y z, extern of the cluster, covariance matrix with the y_sign conjugation; the
-    points it names keep their coordinates (`agrees`: the parser stores the observed coordinates in PointData) -/
+    points it names keep their coordinates (`agrees`: they have the coordinate groups the observations have; since 6848bc2a
+    the observed values do not replace them, so the values need not be equal) -/
 theorem C13_roundtrip_coordinates (C : Codec K) (hC : C.LawfulOn R) (hD : C.DegLawfulOn Rd) (impl : Kind → K) (par : Params K)
     (ys gons : Bool)
     (ps : List (Point K)) (cl : List (Cluster K)) (pp : String) (ext : String) (pts : List (CPoint K)) (cov : Cov K)
@@ -272,6 +273,39 @@ theorem C13_export_coordinates_are_adjusted_partial (C : Codec K) (upd : Nat →
   refine ⟨h, ?_⟩
   simp only [exportNet, h]
   rfl
+
+/-- the guarded coordinate setters of 6848bc2a are in the tree (regeneration tie; all three false on a tree before it, where
+    `apply_noop`, `applyObs_keeps` and with them the theorems below fail): `process_coords_point` calls
+    `process_point(atts, true)`, and there `set_xy` / `set_z` are skipped when the point already has the group -/
+theorem C13_coords_point_keeps_approx_sites :
+    coordsPointObserved = true ∧ observedKeepsXY = true ∧ observedKeepsZ = true := by decide
+
+/-- **a `<coordinates>` cluster never changes coordinates a point already has**: for ANY accepted list of `<point>` elements
+    inside `<coordinates>` and any PointData, every point is still there afterwards with its id and with every coordinate
+    group it had (its status may change: `fix=` / `adj=` still apply; a point without coordinates gets the observed ones).
+    Before 6848bc2a the observed values replaced them — also the adjusted coordinates an export had written. -/
+theorem C13_coordinates_cluster_keeps_coordinates (C : Codec K) (ps : List (Point K)) (pp : String)
+    (pts : List (List (PAttr × String))) (ps' : List (Point K)) (pp' : String) (cps : List (CPoint K))
+    (h : parseCoordPts C ps pp pts = .ok (ps', pp', cps)) :
+    ∀ p ∈ ps, ∃ p' ∈ ps', p'.id = p.id ∧ (p.xy.isSome = true → p'.xy = p.xy) ∧ (p.z.isSome = true → p'.z = p.z) :=
+  parseCoordPts_keeps C ps pp pts ps' pp' cps h
+
+/-- **"approximate coordinates updated from the adjustment" survives the re-import, whatever `<coordinates>` clusters
+    follow**: take any well-formed network — its coordinate observations may name the adjusted points, with any values —
+    refine it with a solution `x` (`refineNet` = refine_approx_coordinates), export it and read the export: the result is the
+    refined network; its points carry `approximate + x(i)/1000` (`adjusted`), not the observed coordinates.  For a codec
+    that gives every number back (the moved coordinates are arbitrary numbers; for a printer: `C13_roundtrip_network_printer`
+    on the refined network).  Before 6848bc2a this was FALSE for a point with observed coordinates (`Net.WF` demanded
+    `p.xy = c.xy`, which refining destroys: the re-import gave the observed values back — replays/C13-11, corpus
+    net-observed-coords-dh.gkf). -/
+theorem C13_reimport_keeps_adjusted_coordinates (C : Codec K) (hC : C.LawfulOn (fun _ => True)) (hD : C.DegLawfulOn Rd)
+    (impl : Kind → K) (par0 : Params K) (upd : Nat → K → K → K) (z0 : K) (x : List K) (unks : List UnkT) (hnd : unks.Nodup)
+    (n : Net K) (hw : n.WF C (fun _ => True) Rd) :
+    parseNet C impl par0 (exportNet C (refineNet upd z0 x unks n)) = .ok (canon (refineNet upd z0 x unks n)) ∧
+    (canon (refineNet upd z0 x unks n)).points = (n.points.filter Point.active).map (adjusted upd z0 x unks) := by
+  refine ⟨parse_export_net C hC hD impl par0 _ (refineNet_WF upd z0 x unks hnd n hw), ?_⟩
+  show (refineNet upd z0 x unks n).points.filter Point.active = _
+  rw [refineNet_points upd z0 x unks hnd n, filter_active_adjusted]
 
 /-- the sites the model of the refinement was written for are the ones the tree contains (regeneration tie): `x = solve()`,
     `LocalPoint& b = PD[cb]` by reference, `x(i)/1000`, `x(i+1)/1000` for y, no test of the point's status, and the loop of
@@ -451,6 +485,19 @@ example : parseNet decCodec (fun _ => 7) lossyNet.par (exportNet decCodec lossyN
 example : unaryCodec.ellKnown "wgs84" = true := rfl
 example : (sampleNet.par).Guards unaryCodec := by unfold Params.Guards; decide
 example : sampleNet.WF unaryCodec (fun _ => True) (fun _ => True) := by decide
+-- 6848bc2a: B has observed coordinates (4, 5) in the `gps` cluster; after the refinement pass B is at (9, 12), the refined
+-- network is still well-formed (the cluster keeps (4, 5)), and reading its export gives B = (9, 12) back
+example : (refineNet (fun _ a d => a + d) 0 [5, 7, 9] [.X "B", .Y "B", .Z "B"] sampleNet).WF unaryCodec (fun _ => True) (fun _ => False) := by
+  decide
+set_option maxRecDepth 100000 in
+example : ((parseNet unaryCodec (fun _ => 7) sampleNet.par
+      (exportNet unaryCodec (refineNet (fun _ a d => a + d) 0 [5, 7, 9] [.X "B", .Y "B", .Z "B"] sampleNet))).toOption.map
+        (fun m => m.points.map (fun p => (p.id, p.xy)))) = some [("A", some (1, 2)), ("B", some (9, 12))] := by decide +kernel
+set_option maxRecDepth 100000 in
+example : ((parseNet unaryCodec (fun _ => 7) sampleNet.par
+      (exportNet unaryCodec (refineNet (fun _ a d => a + d) 0 [5, 7, 9] [.X "B", .Y "B", .Z "B"] sampleNet))).toOption.map
+        (fun m => m.clusters.filterMap (fun c => match c with | .coords _ pts _ => some (pts.map (fun q => q.xy)) | _ => none)))
+    = some [[some (4, 5)]] := by decide +kernel
 -- the refinement pass moves a constrained point like a free one, and leaves a fixed one
 example : (refineNet (fun _ a d => a + d) 0 [5, 7, 9] [.X "B", .Y "B", .Z "B"] sampleNet).points.map (·.xy) =
     [some (1, 2), some (9, 12), some (6, 7)] := by decide
